@@ -159,4 +159,5 @@ class morphedmesh(mesh1d):
     def __init__(self, ncell=100, length=1., x0=0., morph=lambda x: x):
         mesh1d.__init__(self, ncell, length)
         self.xf     = morph(np.linspace(0., length, ncell+1)+x0)
+        self.length = self.xf[-1]-self.xf[0] # span of the morphed domain (used by periodic closures)
         self.xc     = self.calc_centers()
